@@ -205,7 +205,16 @@ void vf_yield(void) {
   if (me < 0 || !S.exploring) { if (S.free_run) sched_yield(); return; }
   if (++S.tr->npoints > S.horizon) sched_fatal(VF_ST_LIVELOCK, "horizon exceeded in a spin loop (livelock?)");
   int o[VF_MAX_THREADS]; int no = others_strict(me, o);
-  if (no == 0) return;                                   /* nobody else can make progress: keep spinning (bounded by the horizon) */
+  if (no == 0) {
+    /* everybody else is parked in a spin loop of its own. What they wait for may have been written by this thread through a
+       plain (uninstrumented) store since they parked -- the harness' hand-over flags are such stores -- so they get to look
+       again before this thread spins on (bounded by the horizon); with nobody else alive: keep spinning */
+    no = others(me, o);
+    if (no == 0) return;
+    S.t[me].yielded = 1;
+    switch_to(me, no == 1 ? o[0] : o[next_choice(no, 0, 0, me, VF_YIELD)]);
+    return;
+  }
   if (++S.t[me].spins <= VF_FREE_SPINS) {
     int c = next_choice(1 + no, 1, 0, me, VF_YIELD);     /* option 0: keep spinning; others: switching away from a runnable thread is a preemption */
     if (c == 0) return;
